@@ -437,7 +437,6 @@ def run_case(case):
     viol = []
     en_kinds = [k for k, e in zip(case["kinds"], case["enabled"]) if e]
     n_en = len(en_kinds)
-    nvec = sum(1 for k in en_kinds if KINDS[k][2])
     veclens = sorted({KINDS[k][2] for k in en_kinds if KINDS[k][2]})
 
     def bad(code, what, **extra):
@@ -479,7 +478,7 @@ def run_case(case):
             return {"viol": viol, "sig": cfgx.sig(sig_base + [p.code]), "nontrivial": nontrivial}
         except Exception as e:  # noqa: BLE001
             bad("raised", f"running the observation raised {type(e).__name__}: {str(e)[:300]}", stage="run",
-                nvec=nvec, veclens=len(veclens))
+                mixed_vector_lengths=len(veclens) >= 2)
             return {"viol": viol, "sig": cfgx.sig(sig_base + ["run-raised"]), "nontrivial": nontrivial}
         trace = list(probes.TRACE)
     finally:
